@@ -10,6 +10,9 @@
 //      sizes; CPU time of parse+serialize is measured per parser and super-linear growth is reported
 //   2  big-depth probes (stack use) for the parsers stage 1 found to scale linearly
 //   3  seeded structural mutations of the corpus documents (28 kinds, dealt round-robin)
+//   5  repeated complex children: every (parent element, child kind) of every top-level document gets that kind replaced by 2 and by
+//      3 of the richest instances of that element name found anywhere in the corpus (c02_common.h Catalogue), each with its own
+//      sub-children; complete in both tiers
 //   4  systematic sweep: every single-point edit (delete/duplicate an element, remove/empty an attribute, remove a text, move an
 //      element out of its namespace) of every top-level corpus document; complete in the thorough tier, a seeded sample in quick
 // Oracles (keys):
@@ -54,6 +57,7 @@ enum {
     C_ITEMS = 8, C_ADMIT_CALLS, C_ADMITTED, C_ADMITTED_TYPED, C_RUNS, C_OUT_CHECKED, C_BYTES_IN, C_BYTES_OUT, C_EMPTY_OUT, C_PARSEONLY_RUNS,
     C_FIX_ORDER_ONLY, C_OWN_ORDER_ONLY, C_OWN_NOT_ADMITTED, C_MUT_NOT_WF, C_MUT_NOT_APPLICABLE, C_PASS, C_FAIL, C_NSDECL_ONLY, C_XCHECK,
     C_DEFAULT_NOT_ADMITTED, C_PROBE_ITEMS, C_PASSTHROUGH_ALTERS_NONOWN,
+    C_RICH = 38,
     C_KIND0 = 40,      // + mutation kind (M_KINDS <= 28); C_KIND0-1 = unmutated
     C_SWEEP0 = 30,     // + sweep type (SW_TYPES <= 8)
     C_KINDCPU0 = 70,   // + mutation kind: CPU milliseconds spent on items of that kind
@@ -61,7 +65,7 @@ enum {
     C_NOTADM0 = 300,   // + parser index: own output not admitted by the parser's own type check
 };
 
-enum { W_DOC, W_MUT, W_DEFAULT, W_PROBE, W_SWEEP };
+enum { W_DOC, W_MUT, W_DEFAULT, W_PROBE, W_SWEEP, W_RICH };
 enum { SH_DEPTH, SH_DEPTH_UNIT, SH_CHILDREN, SH_ATTR_LEN, SH_TEXT_LEN, SH_COUNT };
 static const char *shapeName(int s)
 {
@@ -147,6 +151,7 @@ static std::vector<vt::Codec> g_table;
 static std::vector<Doc> g_docs;          // regress + corpus + sub-elements
 static std::vector<Node> g_nodes;        // parsed (same index)
 static std::vector<Node> g_tplNodes;
+static Catalogue g_catalogue;
 static size_t g_nRegress = 0, g_nTop = 0;
 static Cfg g_cfg;
 
@@ -563,6 +568,20 @@ static void runItem(const Work &w, int itemIdx, int resumeParser, Status *st, in
         g_vocab = nullptr;
         break;
     }
+    case W_RICH: {
+        // w.mut = index in the deterministic enumeration of (parent, child kind, 2|3) of document w.doc
+        Node n = g_nodes[w.doc];
+        auto ops = enumerateRich(n, g_catalogue);
+        if (w.mut < 0 || size_t(w.mut) >= ops.size()) return;
+        std::string mutDesc = applyRich(n, ops[w.mut], g_catalogue, unsigned(w.kind));
+        if (mutDesc.empty()) { st->counters[C_MUT_NOT_APPLICABLE]++; return; }
+        st->counters[C_RICH]++;
+        QByteArray in = render(n);
+        printf("D %s\t%s\t%s\n", g_docs[w.doc].id.c_str(), mutDesc.c_str(), escLine(in, 4000).c_str());
+        fflush(stdout);
+        explore(in, g_docs[w.doc].id, mutDesc, -1, resumeParser, st, samplesLeft, "", true);
+        break;
+    }
     case W_DEFAULT: {
         if (resumeParser >= w.parser) return;
         const vt::Codec &c = g_table[w.parser];
@@ -681,6 +700,7 @@ int main(int argc, char **argv)
         for (size_t i = g_nRegress; i < nTop; i++) { Node copy = g_nodes[i]; std::string id = g_docs[i].id; rec(copy, id, ""); }
     }
     g_nTop = nTop;
+    g_catalogue.build(g_nodes);
     for (auto &t : templates()) {
         QDomDocument doc;
         if (!doc.setContent(QByteArray(t.xml), true)) { fprintf(stderr, "template %s is not well-formed\n", t.name); return 3; }
@@ -752,7 +772,7 @@ int main(int argc, char **argv)
                 bool inLibrary = r.phase == PH_ADMIT || r.phase == PH_RUN1 || r.phase == PH_RUN2 || r.phase == PH_RUN3;
                 std::string docId = "?", kind = "none", xml;
                 if (w) {
-                    if (w->type == W_DOC || w->type == W_MUT || w->type == W_SWEEP) { docId = g_docs[w->doc].id; xml = escLine(g_docs[w->doc].xml, 700); if (w->type == W_MUT) kind = mutName(w->kind); if (w->type == W_SWEEP) kind = "sweep"; }
+                    if (w->type == W_DOC || w->type == W_MUT || w->type == W_SWEEP || w->type == W_RICH) { docId = g_docs[w->doc].id; xml = escLine(g_docs[w->doc].xml, 700); if (w->type == W_MUT) kind = mutName(w->kind); if (w->type == W_SWEEP) kind = "sweep"; if (w->type == W_RICH) kind = "rich-siblings"; }
                     else if (w->type == W_DEFAULT) docId = "default:" + g_table[w->parser].name;
                     else { docId = std::string("probe:") + templates()[w->doc].name + ":" + shapeName(w->shape) + "=" + std::to_string(w->size); xml = templates()[w->doc].xml; kind = shapeName(w->shape); }
                     if (w->type == W_PROBE && (w->shape == SH_DEPTH || w->shape == SH_DEPTH_UNIT)) probeCrashed.insert(parser);
@@ -766,7 +786,7 @@ int main(int argc, char **argv)
                 auto ep = tail.find("ERROR: ");
                 if (ep == std::string::npos) ep = tail.find("runtime error: ");
                 std::string first = ep == std::string::npos ? "" : tail.substr(ep, tail.find('\n', ep) - ep);
-                if (!lastD.isEmpty() && w && (w->type == W_MUT || w->type == W_SWEEP)) {
+                if (!lastD.isEmpty() && w && (w->type == W_MUT || w->type == W_SWEEP || w->type == W_RICH)) {
                     auto df = lastD.split('\t');
                     if (df.size() == 3 && !df[2].contains("...[")) dumpFailingInput(key, parser, (df[0] + "|" + df[1]).toStdString(), unescLine(df[2]));
                 } else if (w && w->type == W_DOC) dumpFailingInput(key, parser, docId, g_docs[w->doc].xml);
@@ -1004,6 +1024,20 @@ int main(int argc, char **argv)
         runStage("s4", work, 32);
     }
 
+    // ---- stage 5: repeated complex children (deterministic; complete in both tiers, the seed only rotates which catalogue instances
+    // are combined): every (parent, child kind) of every top-level document gets that kind replaced by 2 and by 3 rich siblings
+    if (g_cfg.mutations) {
+        std::vector<Work> work;
+        for (size_t i = g_nRegress; i < g_nTop; i++) {
+            Node n = g_nodes[i];
+            size_t nops = enumerateRich(n, g_catalogue).size();
+            for (size_t o = 0; o < nops; o++) work.push_back({ W_RICH, int(i), int(o), int(g_cfg.seed % 5), -1, 0, 0 });
+        }
+        vh::stat("rich_sibling_items", long(work.size()));
+        vh::stat("rich_sibling_catalogue_kinds", long(g_catalogue.byName.size()));
+        runStage("s5", work, 32);
+    }
+
     // ---- totals
     long long *T = pool.totals;
     vh::oraclePass() = T[C_PASS];
@@ -1049,6 +1083,7 @@ int main(int argc, char **argv)
     vh::stat("workers", g_cfg.workers);
     vh::stat("wall_ms", wall.elapsed());
     vh::stat("kind:unmutated", T[C_KIND0 - 1]);
+    vh::stat("kind:rich-siblings", T[C_RICH]);
     for (int k = 0; k < SW_TYPES; k++) vh::stat(std::string("kind:") + sweepName(k), T[C_SWEEP0 + k]);
     for (int k = 0; k < M_KINDS; k++) { vh::stat(std::string("kind:") + mutName(k), T[C_KIND0 + k]); vh::stat(std::string("kind_cpu_ms:") + mutName(k), T[C_KINDCPU0 + k]); }
     long never = 0;
